@@ -143,6 +143,11 @@ def directed_docs():
         "FloatDataEncoding@sizeInBits=16": ir.PType("X_T", "float", ir.FloatEnc(16)),
         "SplineCalibrator@order=1": ir.PType("X_T", "float", I(8, "unsigned", False, ir.Spline(((0.0, 1.0), (255.0, 2.0)), 1, False))),
         "SplineCalibrator@extrapolate=true": ir.PType("X_T", "float", I(8, "unsigned", False, ir.Spline(((1.0, 1.0), (5.0, 2.0)), 0, True))),
+        "SplineCalibrator/step (two points share a raw value)": ir.PType("X_T", "float", I(8, "unsigned", False, ir.Spline(((0.0, 1.0), (100.0, 50.0), (100.0, 20.0), (255.0, 2.0)), 1, False))),
+        "SplineCalibrator/step ascending": ir.PType("X_T", "float", I(8, "unsigned", False, ir.Spline(((0.0, 1.0), (100.0, 20.0), (100.0, 50.0), (255.0, 2.0)), 0, True))),
+        "PolynomialCalibrator/17-digit coefficients": ir.PType("X_T", "float", I(16, "unsigned", False, ir.Poly(((5 / 9, 1), (-160 / 9, 0), (1 / 3, 2), (0.1 + 0.2, 3))))),
+        "ContextCalibrator/17-digit coefficient": ir.PType("X_T", "float", I(8, "unsigned", False, None, (ir.ContextCal((ir.Comparison("PKT_APID", "5"),), ir.Poly(((2 / 3, 1), (1e-17 + 1 / 7, 0)))),))),
+        "SplinePoint/17-digit coordinates": ir.PType("X_T", "float", ir.FloatEnc(64, "IEEE754", False, ir.Spline(((1 / 3, 2 / 3), (10 / 3, 0.1 + 0.2)), 1, True))),
         "PolynomialCalibrator/negative-exponent": ir.PType("X_T", "float", I(8, "unsigned", False, ir.Poly(((2.5, -1), (1e-12, 3))))),
         "Comparison@useCalibratedValue=false": ir.PType("X_T", "float", I(8, "unsigned", False, None, (ir.ContextCal((ir.Comparison("PKT_APID", "5", "==", False),), ir.Poly(((1.0, 1),))),))),
         "Comparison@comparisonOperator=<=": ir.PType("X_T", "float", I(8, "unsigned", False, None, (ir.ContextCal((ir.Comparison("PKT_APID", "5", "<="),), ir.Poly(((1.0, 1),))),))),
